@@ -6,6 +6,30 @@ use verif_harness::gen::perfdata::*;
 
 pub struct C14;
 
+/// several deep samples in one recording: on the same thread and on a second thread, so that stacks of
+/// different elision counts meet in one thread's tables
+fn multi_case(depths: &[u64], second_thread_depths: &[u64]) -> History {
+    let t0 = 5_000_000u64;
+    let mut recs = vec![Rec::Comm { pid: 100, tid: 100, name: "deep".to_string(), exec: false, t: t0 - 10 }];
+    let mut t = t0;
+    let mk = |tid: u32, depth: u64, t: u64, salt: u64| {
+        let mut chain = vec![CTX_USER];
+        for i in 0..depth {
+            chain.push(0x10000 + 16 * i + 8 + salt);
+        }
+        Rec::Sample { pid: 100, tid, t, kernel: false, period: 1_000_000, ip: 0x10008, chain }
+    };
+    for (k, d) in depths.iter().enumerate() {
+        recs.push(mk(100, *d, t, k as u64 % 2));
+        t += 1000;
+    }
+    for (k, d) in second_thread_depths.iter().enumerate() {
+        recs.push(mk(101, *d, t, k as u64 % 2));
+        t += 1000;
+    }
+    History { reuse: false, fold: false, ref_time: t0, recs, files: Vec::new() }
+}
+
 fn deep_case(depth: u64, fold: bool, extra_shallow: bool, mapped: bool, recursion: u64) -> History {
     let t0 = 5_000_000u64;
     let mut recs = vec![Rec::Comm { pid: 100, tid: 100, name: "deep".to_string(), exec: false, t: t0 - 10 }];
@@ -64,9 +88,31 @@ impl Prop for C14 {
             let h = deep_case(d, false, d % 2 == 0, d % 3 == 0, 0);
             v.push(Case { name: format!("depth{d}"), ops: h.to_ops() });
         }
+        // several deep stacks with different elision counts on one thread / two threads
+        let multis: [(&[u64], &[u64]); 6] = [
+            (&[520, 750], &[]),
+            (&[700, 500], &[]),
+            (&[900, 1300, 600, 499], &[]),
+            (&[650], &[1100, 650]),
+            (&[500, 500, 700, 700], &[700, 500]),
+            (&[3000, 501, 8000], &[300, 2000]),
+        ];
+        for (k, (a, b)) in multis.iter().enumerate() {
+            v.push(Case { name: format!("multi{k}"), ops: multi_case(a, b).to_ops() });
+        }
         v
     }
     fn generate(&self, rng: &mut Rng, _tier: Tier, _index: u64) -> Vec<String> {
+        if rng.chance(1, 3) {
+            let pick = |rng: &mut Rng| match rng.below(3) {
+                0 => rng.range(1, 499),
+                1 => 500 + 200 * rng.below(5) + rng.below(200),
+                _ => rng.range(500, 3000),
+            };
+            let a: Vec<u64> = (0..rng.range(2, 4)).map(|_| pick(rng)).collect();
+            let b: Vec<u64> = (0..rng.below(3)).map(|_| pick(rng)).collect();
+            return multi_case(&a, &b).to_ops();
+        }
         let depth = match rng.below(4) {
             0 => rng.range(0, 520),
             1 => 500 + 200 * rng.below(6) + rng.below(7) - 3,
